@@ -55,7 +55,15 @@ def parse_case(esm, tlv, text, expect=None, tag='raw'):
         d = None
         out = 'exc ' + exc_name(e)
     fail = None
-    if expect is not None:
+    # the library parses every inbound receipt more than once (guarded region of _handle_request, then correlation):
+    # the same object parsed again must give the same dictionary
+    try:
+        out2 = show_dict(m.parse_receipt())
+    except Exception as e:      # noqa
+        out2 = 'exc ' + exc_name(e)
+    if d is not None and out2 != out:      # (after a parse that raised, a second parse is not judged)
+        fail = 'the same DeliverSm parsed a second time gives %s, the first time %s' % (out2[:200], out[:200])
+    if expect is not None and fail is None:
         if d is None:
             fail = 'parsing a well-formed receipt raised (%s)' % out
         else:
